@@ -210,6 +210,14 @@ m("c04_vm_super_position", "C04", r"C04\.VM:super:topmost-matching-block", "supe
   "tera/src/vm/interpreter.rs", "                            .rposition(|entry| entry.0 == current_block_name)", "                            .position(|entry| entry.0 == current_block_name)")
 m("c04_block_capture_any", "C04", r"C04\.BLOCK:vm:capture-the-named-block", "every block rendered while capture_block is set overwrites the block buffer",
   "tera/src/vm/interpreter.rs", "                    let res = if state.capture_block == Some(block_name.as_str()) {", "                    let res = if state.capture_block.is_some() {")
+m("c06_lexoff_skip_tag_chars", "C06", r"C06\.LEXOFF", "skip_tag reports the consumed length in characters",
+  "tera/src/parsing/lexer.rs", "    Some((block_str.len() - ptr.len(), outer_ws))", "    Some((block_str.chars().count() - ptr.chars().count(), outer_ws))")
+m("c18_writer_linewriter", "C18", r"C18\.IOERR:.*writer-handed-on", "render_to wraps the writer in a LineWriter",
+  "tera/src/vm/interpreter.rs", "        let mut state = State::new_with_chunk(context, chunk);\n        state.global_context = Some(global_context);", "        let mut output = std::io::LineWriter::new(output);\n        let mut state = State::new_with_chunk(context, chunk);\n        state.global_context = Some(global_context);")
+m("c05_getter_and_then", "C05", r"C05\.BIND:getter-is-plain-lookup", "the API getter hides none values",
+  "tera/src/tera.rs", "                |key| context.get(key).cloned(),", "                |key| context.get(key).filter(|v| !v.is_none()).cloned(),")
+m("c04_lineage_walk_extra_condition", "C04", r"C04\.LINEAGE:finalize:walk-iff-own-calls-super", "the ancestor walk is skipped for templates with a single parent",
+  "tera/src/tera.rs", '                if chunk.is_calling_function("super") {\n                    for parent_tpl_name', '                if tpl_parents[name].len() != 1 && chunk.is_calling_function("super") {\n                    for parent_tpl_name')
 # ---------------------------------------------------------------- C05
 m("c05_iso_global", "C05", r"C05\.ISO:writer:global_context", "render_component gives the component the global context",
   "tera/src/vm/interpreter.rs", """        let mut state = State::new_with_chunk(&context, chunk);
